@@ -40,6 +40,7 @@ for _k in RULES:
 
 ASSUME = ['anchors and look-around assertions see exactly the searched text (the last W characters under a window) in model and oracle alike',
           'kernel stub rules (simpex/kernel.py) match Linux for what pexpect observes',
+          'exceptions from outside (Ctrl-C, a raising signal handler) are injected only where the code under test really waits (select, poll, recv, sleep, a blocking waitpid): between two arbitrary bytecodes no code can promise anything and nothing is judged there',
           'no wall-clock steps; complete writes on blocking descriptors']
 
 
